@@ -32,7 +32,14 @@ func H_Content() {
 	npool := vp.Param("pool", 4)
 	prefix := vp.Param("prefix", 0) // number of forced initial updates (keys 0..prefix-1)
 	wshift := vp.Param("wshift", 0)
-	pool := wmptlib.Pool()[:npool]
+	pool := wmptlib.Pool()
+	if vp.Param("poolsel", 0) == 1 {
+		// three keys that differ only in the last nibble (a 3-child branch below a long shared prefix) plus one far key
+		twin := append([]byte{}, pool[1]...)
+		twin[31] = 2
+		pool = [][]byte{pool[0], pool[1], twin, pool[4]}
+	}
+	pool = pool[:npool]
 	db := wmptlib.NewMemStore()
 	t := wmpt.New(nil, db)
 	ref := wmptlib.NewRef()
@@ -63,7 +70,14 @@ func H_Content() {
 		checkWeight()
 	}
 	for s := 0; s < k; s++ {
-		op := vp.Choose("op", 5)
+		opmask := vp.Param("opmask", 31)
+		var kinds []int
+		for b := 0; b < 5; b++ {
+			if opmask&(1<<uint(b)) != 0 {
+				kinds = append(kinds, b)
+			}
+		}
+		op := kinds[vp.Choose("op", len(kinds))]
 		switch op {
 		case 0:
 			if !update(vp.Choose("key", npool)) {
